@@ -252,40 +252,50 @@ pub fn cases(ctx: &Ctx) -> Vec<Case> {
         let max_pdu = *r.pick(&[1018u32, 4096, 16384, 65536]);
         let order_seed = r.next();
         // ---- run the real binary against the acceptor
-        let mut cmd = Command::new(tool("dicom-storescu"));
-        cmd.current_dir(&dir).arg(format!("127.0.0.1:{port}")).arg(&dir).env("RUST_LOG", "off");
-        if ignore { cmd.arg("--ignore-sop-class"); }
-        if never { cmd.arg("--never-transcode"); }
-        if let Some(c) = conc { cmd.arg("-c").arg(c.to_string()); }
-        cmd.stdout(std::process::Stdio::null()).stderr(std::process::Stdio::null());
-        let mut child = Proc::spawn(cmd).expect("spawn dicom-storescu");
-        let t0 = Instant::now();
+        // A run that does not finish within the first limit is repeated once with a much longer one;
+        // not finishing is an infrastructure condition (loaded machine), never a property failure.
         let mut assocs: Vec<Assoc> = vec![];
         let mut timed_out = false;
-        let mut exited_at: Option<Instant> = None;
-        loop {
-            match listener.accept() {
-                Ok((s, _)) => {
-                    s.set_nonblocking(false).ok();
-                    if let Ok(mut w) = Wire::from_stream(s, Duration::from_secs(15)) {
-                        if let Some(a) = serve(&mut w, &policy, order_seed, max_pdu) { assocs.push(a); }
+        for limit in [Duration::from_secs(180), Duration::from_secs(1800)] {
+            let mut cmd = Command::new(tool("dicom-storescu"));
+            cmd.current_dir(&dir).arg(format!("127.0.0.1:{port}")).arg(&dir).env("RUST_LOG", "off");
+            if ignore { cmd.arg("--ignore-sop-class"); }
+            if never { cmd.arg("--never-transcode"); }
+            if let Some(c) = conc { cmd.arg("-c").arg(c.to_string()); }
+            cmd.stdout(std::process::Stdio::null()).stderr(std::process::Stdio::null());
+            let mut child = Proc::spawn(cmd).expect("spawn dicom-storescu");
+            let t0 = Instant::now();
+            assocs.clear();
+            timed_out = false;
+            let mut seen_exit = false;
+            loop {
+                match listener.accept() {
+                    Ok((s, _)) => {
+                        s.set_nonblocking(false).ok();
+                        if let Ok(mut w) = Wire::from_stream(s, WAIT) {
+                            if let Some(a) = serve(&mut w, &policy, order_seed, max_pdu) { assocs.push(a); }
+                            if w.timed_out() { timed_out = true; }
+                        }
                     }
-                }
-                Err(_) => {
-                    if child.exited() {
-                        // drain connections that may still sit in the backlog
-                        match exited_at { None => exited_at = Some(Instant::now()), Some(t) if t.elapsed() > Duration::from_millis(20) => break, _ => {} }
+                    Err(_) => {
+                        // nothing to accept right now; once the tool has exited, one more pass over the
+                        // backlog (connections it made before exiting) and we are done
+                        if seen_exit { break; }
+                        if child.exited() { seen_exit = true; continue; }
+                        if t0.elapsed() > limit { timed_out = true; break; }
+                        std::thread::sleep(Duration::from_millis(2));
                     }
-                    if t0.elapsed() > Duration::from_secs(40) { timed_out = true; break; }
-                    std::thread::sleep(Duration::from_millis(2));
                 }
             }
+            drop(child);
+            // connections of a killed run must not leak into the next attempt
+            while let Ok((s, _)) = listener.accept() { drop(s); }
+            if !timed_out { break; }
         }
-        drop(child);
         // ---- observations per file, oracle
         let mut oracle = Oracle::Holds;
         let fail = |o: &mut Oracle, class: &str, detail: String| { if matches!(o, Oracle::Holds) { *o = Oracle::Fails { class: class.into(), detail }; } };
-        if timed_out { fail(&mut oracle, "harness-timeout", "dicom-storescu did not finish in 40 s".into()); }
+        let infra_note = if timed_out { Some("dicom-storescu did not finish within the time limits (run twice)") } else { None };
         let ile = dicom_transfer_syntax_registry::entries::IMPLICIT_VR_LITTLE_ENDIAN.erased();
         let mut per_file: Vec<Vec<(usize, u8, String)>> = vec![vec![]; files.len()]; // (assoc index, pc id, negotiated ts)
         for (ai, a) in assocs.iter().enumerate() {
@@ -320,17 +330,20 @@ pub fn cases(ctx: &Ctx) -> Vec<Case> {
             let obs = per_file[fi].first().map(|(_, id, ts)| c_pair(&id.to_string(), &c_str(ts.trim_end_matches(|c: char| c == '\0' || c.is_whitespace()))));
             c_tuple(&[c_str(&f.class), c_str(&f.ts), c_opt(obs)])
         }));
-        let coq = if consistent && !timed_out && !assocs.is_empty() { c_tuple(&[c_reg.clone(), c_bool(ignore), c_bool(never), c_pcs, c_files]) } else { String::new() };
+        let coq = if consistent && !timed_out && !assocs.is_empty() { format!("({} : ScuChoice.case_t)", c_tuple(&[c_reg.clone(), c_bool(ignore), c_bool(never), c_pcs, c_files])) } else { String::new() };
         if assocs.is_empty() && policy.values().any(|v| v.is_some()) && !timed_out {
             // the tool never reached the acceptor although something would have been accepted
-            fail(&mut oracle, "harness-no-association", "no association was received".into());
+            fail(&mut oracle, "tool-never-connected", "dicom-storescu exited without opening an association".into());
         }
         let accepted: Vec<String> = policy.iter().filter(|(_, v)| v.is_some()).map(|((a, t), _)| format!("{}/{}", a.rsplit('.').next().unwrap_or(""), t.rsplit("10008.").next().unwrap_or(""))).collect();
         let nsent: usize = per_file.iter().map(|v| v.len()).sum();
         let bucket = format!("{}{}{}files={} sent={}", if conc.is_some() { "async " } else { "" }, if ignore { "ignore-class " } else { "" }, if never { "never-transcode " } else { "" }, files.len(), nsent);
+        // what was received before a time limit still must not violate the property, but a run cut
+        // short proves nothing: it is reported as not applicable unless a definite violation was seen
+        if timed_out && matches!(oracle, Oracle::Holds) { oracle = Oracle::NotApplicable; }
         out.push(Case {
             coq,
-            desc: json!({"bucket": bucket, "files": files.iter().map(|f| json!({"class": f.class, "ts": f.ts, "inst": f.inst})).collect::<Vec<_>>(),
+            desc: json!({"bucket": bucket, "infrastructure_note": infra_note, "files": files.iter().map(|f| json!({"class": f.class, "ts": f.ts, "inst": f.inst})).collect::<Vec<_>>(),
                           "accepted_policy": accepted, "ignore_sop_class": ignore, "never_transcode": never, "concurrency": conc, "max_pdu": max_pdu,
                           "associations": assocs.len(), "contexts": pcs0, "sent": per_file.iter().map(|v| v.iter().map(|x| x.1).collect::<Vec<_>>()).collect::<Vec<_>>()}),
             // context ids are left out of the key: the tool numbers its proposals in HashSet order, which changes per process
